@@ -256,6 +256,10 @@ pub fn run_and_check(p: &Program, seed: &SeedMode, opts: &CheckOpts) -> Outcome 
                     let ok = if o.exact {
                         gj == wj
                     } else {
+                        // (an error scale that is not a number bounds nothing: the element is not judged)
+                        if !scale[j].is_finite() {
+                            continue;
+                        }
                         let sc = (scale[j] * passes).max(maxmag).max(1.0);
                         let e = (gj - wj).abs();
                         let rel = e / (tau() * sc);
